@@ -58,6 +58,16 @@ def cases(draw, tier):
     if idk == "tsv":
         spec["history"] = [o for o in spec["history"]
                            if o["op"] != "rename"]
+    if kind in ("min", "max") and draw(st.integers(0, 3)) == 0:
+        # every non-zero value negative (or every one positive) next to
+        # zeros: the extremes are extremes of the non-zero values
+        sign = draw(st.sampled_from([-1.0, -1.0, 1.0]))
+        spec["rows"] = [[sign * abs(x) for x in r] for r in spec["rows"]]
+        if spec["rows"] and spec["rows"][0]:
+            spec["rows"][0][0] = 0.0
+        spec["history"] = [o for o in spec["history"]
+                           if o["op"] in ("sort", "data", "transpose",
+                                          "nnz", "copy")]
     if kind in ("md_dataframe", "export_metadata", "summarize"):
         for key, ids in (("obs_md", spec["obs"]), ("samp_md", spec["samp"])):
             if draw(st.integers(0, 3)) != 0:
